@@ -1,7 +1,7 @@
 SPECIFICATION GSpec
 CONSTANTS Devs = @DEVS@
           Follow = @FOLLOW@
-          InitSizes = {0, 3, 4}
+          InitSizes = {0, 4}
           Roots = {"pb", "tree"}
           WLens = {0, 1, 3}
           Ks = {0, 2, 5}
